@@ -263,7 +263,7 @@ func init() {
 		Components: e1Components, Assumptions: commonAssumptions,
 		Gen: func(r *Rand, tier string) *Case {
 			c := &Case{Server: ServerCfg{Limit: smallLimit(r)}}
-			genHistory(r, c, histOpts{decorated: r.Chance(1, 4), manyRows: true, simple: true, extended: true, errs: true, abuse: r.Chance(1, 3), unknown: true, oversized: true, unknownNames: true, closes: true, stray: true, params: true, maxUnits: units(tier, 8), terminate: true})
+			genHistory(r, c, histOpts{copy: r.Chance(1, 5), decorated: r.Chance(1, 4), manyRows: true, simple: true, extended: true, errs: true, abuse: r.Chance(1, 3), unknown: true, oversized: true, unknownNames: true, closes: true, stray: true, params: true, maxUnits: units(tier, 8), terminate: true})
 			return c
 		},
 		Check: func(x *Exec, c *Case) ([]Violation, bool) {
@@ -377,7 +377,7 @@ func init() {
 		Gen: func(r *Rand, tier string) *Case {
 			c := &Case{Server: ServerCfg{Limit: r.PickInt(4096, 5000, 8192, 16384, 65536)}}
 			c.Server.Auth = r.Pick("cleartext", "passthrough", "passthrough")
-			genHistory(r, c, histOpts{errs: r.Chance(1, 3), simple: true, extended: true, copy: r.Chance(1, 3), params: true, retain: true, sizes: true, bigValues: true, between: true, stray: true, maxUnits: units(tier, 9)})
+			genHistory(r, c, histOpts{closes: r.Chance(1, 3), errs: r.Chance(1, 3), simple: true, extended: true, copy: r.Chance(1, 3), params: true, retain: true, sizes: true, bigValues: true, between: true, stray: true, maxUnits: units(tier, 9)})
 			if su := &c.Conns[0].Steps[0].Msgs[0]; su.K == "startup" && len(su.KV) == 2 && r.Chance(1, 6) {
 				// a startup packet without (or with an empty) database parameter
 				if r.Bool() {
